@@ -557,49 +557,79 @@ pub proof fn lemma_inv_circ_entries(y: Seq<F>, z: Seq<F>)
     let y0 = y[0].v(); let v = rdot(tail(y), tail(z), y.len() - 1);
     assert(v / y0 == v * (1real / y0)) by(nonlinear_arith) requires y0 != 0real;
 }
+// the scalar algebra of (i), kept apart from the sequences and the float axioms (pure reals, one small nonlinear step at a time)
+pub proof fn lemma_circ_inv_alg(y0: real, z0: real, v: real, p: real, nn: real, ip: real, iy: real, x0: real, c1: real)
+    requires ip * p == 1real, iy * y0 == 1real, nn == y0 * y0 - p, x0 == (y0 * z0 - v) * ip, c1 == ip * (v * iy - z0),
+    ensures y0 * c1 == -x0, y0 * x0 + (c1 * nn + iy * v) == z0,
+{
+    let t = v * iy - z0; let m = y0 * z0 - v;
+    // y0 t = v - y0 z0 = -m
+    lemma_mul_swap(y0, v, iy);
+    assert(v * (y0 * iy) == v) by(nonlinear_arith) requires iy * y0 == 1real;
+    let viy = v * iy;
+    assert(y0 * t == y0 * viy - y0 * z0) by(nonlinear_arith) requires t == viy - z0;
+    assert(y0 * t == -m);
+    // y0 c1 = ip (y0 t) = -(m ip) = -x0
+    lemma_mul_swap(y0, ip, t);
+    let y0t = y0 * t;
+    assert(ip * y0t == -(m * ip)) by(nonlinear_arith) requires y0t == -m;
+    assert(y0 * c1 == -x0);
+    // c1 nn = (c1 y0) y0 - c1 p = -(x0 y0) - t
+    let yy = y0 * y0;
+    lemma_dist(c1, yy, -p);
+    assert(c1 * (-p) == -(c1 * p)) by(nonlinear_arith);
+    assert(c1 * p == t) by(nonlinear_arith) requires c1 == ip * t, ip * p == 1real;
+    let c1y = c1 * y0;
+    assert(c1 * yy == c1y * y0) by(nonlinear_arith) requires yy == y0 * y0, c1y == c1 * y0;
+    assert(c1y == -x0) by(nonlinear_arith) requires y0 * c1 == -x0, c1y == c1 * y0;
+    assert(c1y * y0 == -(y0 * x0)) by(nonlinear_arith) requires c1y == -x0;
+    assert(c1 * nn == -(y0 * x0) - t);
+    assert(iy * v == viy) by(nonlinear_arith) requires viy == v * iy;
+}
+pub proof fn lemma_circ_inv_alg_tail(y0: real, x0: real, c1: real, iy: real, yi: real, zi: real)
+    requires y0 * c1 == -x0, iy * y0 == 1real,
+    ensures y0 * (c1 * yi + iy * zi) + x0 * yi == zi,
+{
+    lemma_dist(y0, c1 * yi, iy * zi);
+    lemma_mul_swap(y0, c1, yi); lemma_mul_swap(y0, iy, zi);
+    let yc = y0 * c1; let yiy = y0 * iy;
+    // y0 (c1 yi) = c1 (y0 yi) = (y0 c1) yi
+    assert(c1 * (y0 * yi) == yc * yi) by(nonlinear_arith) requires yc == y0 * c1;
+    assert(iy * (y0 * zi) == yiy * zi) by(nonlinear_arith) requires yiy == y0 * iy;
+    assert(yiy == 1real) by(nonlinear_arith) requires iy * y0 == 1real, yiy == y0 * iy;
+    assert(yc * yi == -(x0 * yi)) by(nonlinear_arith) requires yc == -x0;
+}
+pub proof fn lemma_circ_entries(y: Seq<F>, x: Seq<F>)
+    requires y.len() >= 1, x.len() == y.len(),
+    ensures circ_seq(y, x)[0].v() == rdot(y, x, y.len() as int),
+        forall|i: int| 1 <= i < y.len() ==> #[trigger] circ_seq(y, x)[i].v() == y[0].v() * x[i].v() + x[0].v() * y[i].v(),
+{
+    broadcast use real_arith;
+    lemma_vm_dot_real(y, x);
+}
 pub proof fn lemma_circ_inv_circ(y: Seq<F>, z: Seq<F>, i: int)
     requires y.len() >= 1, z.len() == y.len(), y[0].v() != 0real, resid_r(y) != 0real, 0 <= i < y.len(),
     ensures circ_seq(y, inv_circ_seq(y, z))[i].v() == z[i].v(),
 {
-    broadcast use real_arith;
     let n = y.len() as int;
     let x = inv_circ_seq(y, z);
     lemma_inv_circ_entries(y, z);
+    lemma_circ_entries(y, x);
     let y0 = y[0].v(); let z0 = z[0].v(); let p = resid_r(y);
     let v = rdot(tail(y), tail(z), n - 1); let ip = 1real / p; let iy = 1real / y0;
     assert(ip * p == 1real) by(nonlinear_arith) requires ip == 1real / p, p != 0real;
     assert(iy * y0 == 1real) by(nonlinear_arith) requires iy == 1real / y0, y0 != 0real;
     let c1 = ip * (v * iy - z0); let x0 = x[0].v();
-    // y0 c1 = -x0
-    assert(y0 * c1 == -x0) by {
-        let t = v * iy - z0;
-        assert(y0 * t == v - y0 * z0) by(nonlinear_arith) requires t == v * iy - z0, iy * y0 == 1real;
-        assert(y0 * (ip * t) == ip * (y0 * t)) by(nonlinear_arith);
-        assert(ip * (v - y0 * z0) == -((y0 * z0 - v) * ip)) by(nonlinear_arith);
-    }
+    let nn = rdot(tail(y), tail(y), n - 1);
+    lemma_circ_inv_alg(y0, z0, v, p, nn, ip, iy, x0, c1);
     if i == 0 {
-        let N = rdot(tail(y), tail(y), n - 1);
-        assert(N == y0 * y0 - p);
-        lemma_vm_dot_real(y, x);
         lemma_rdot_split(y, x, n);
         assert forall|k: int| 0 <= k < n - 1 implies #[trigger] tail(x)[k].v() == c1 * tail(y)[k].v() + iy * tail(z)[k].v() by {
             assert(tail(x)[k] == x[k + 1] && tail(y)[k] == y[k + 1] && tail(z)[k] == z[k + 1]);
         }
         lemma_rdot_lin(tail(y), tail(x), tail(y), tail(z), c1, iy, n - 1);
-        // <y, x> = y0 x0 + c1 N + iy v
-        assert(circ_seq(y, x)[0].v() == y0 * x0 + (c1 * N + iy * v));
-        // c1 N = c1 y0 y0 - c1 p = -x0 y0 - (v iy - z0)
-        assert(c1 * N == (c1 * y0) * y0 - c1 * p) by(nonlinear_arith) requires N == y0 * y0 - p;
-        assert(c1 * p == v * iy - z0) by(nonlinear_arith) requires c1 == ip * (v * iy - z0), ip * p == 1real;
-        assert((c1 * y0) * y0 == -(x0 * y0)) by(nonlinear_arith) requires y0 * c1 == -x0;
-        assert(y0 * x0 == x0 * y0) by(nonlinear_arith);
-        assert(iy * v == v * iy) by(nonlinear_arith);
     } else {
-        let xi = x[i].v(); let yi = y[i].v(); let zi = z[i].v();
-        assert(xi == c1 * yi + iy * zi);
-        assert(circ_seq(y, x)[i].v() == y0 * xi + x0 * yi);
-        assert(y0 * (c1 * yi + iy * zi) == (y0 * c1) * yi + (iy * y0) * zi) by(nonlinear_arith);
-        assert((-x0) * yi + 1real * zi + x0 * yi == zi) by(nonlinear_arith);
+        lemma_circ_inv_alg_tail(y0, x0, c1, iy, y[i].v(), z[i].v());
     }
 }
 
